@@ -347,6 +347,19 @@ fn find_script_close(b: &[u8], from: usize) -> Option<usize> {
                     i += 8;
                     continue;
                 }
+                // observed behaviour of this tokenizer family: in the escaped state a '<' that is followed
+                // by neither '/' nor a letter falls back to the plain script-data state
+                if b[i] == b'<' {
+                    match b.get(i + 1) {
+                        Some(c) if *c == b'/' || c.is_ascii_alphabetic() => {}
+                        Some(_) => {
+                            s = S::Data;
+                            i += 1;
+                            continue;
+                        }
+                        None => {}
+                    }
+                }
                 i += 1;
             }
             S::Double => {
